@@ -1061,7 +1061,7 @@ func (self *Node) deleteChild(path Path) Node {
 		if err != nil {
 			return errNode(meta.ErrRead, "", err)
 		}
-		if id >= size {
+		if id < 0 || id >= size {
 			return errNotFound
 		}
 		tt = et
